@@ -178,6 +178,8 @@ def capacity(dz):
 
 
 def predict_hang(dz, zmax):
+    """True when the thin compartments cannot reach Zmax + 0.1: before /repo commit 1d078f4 the loop then never ended
+    (finding 9); now the bottom compartment keeps growing (the `else` branch of the for loop)"""
     return capacity(dz) < zmax + 0.1 - 1e-9
 
 
@@ -280,7 +282,7 @@ def pick_crop(rng, dz, want_ok=True):
 
 
 def gen_init_spec(rng, kind):
-    """kind: 'valid' | 'hang' | 'badlayer' | 'badiwc' | 'badtex'"""
+    """kind: 'valid' | 'hang' (= bottom compartment must grow; valid since 1d078f4) | 'badlayer' | 'badiwc' | 'badtex'"""
     if rng.random() < 0.4 and kind in ("valid", "hang", "badiwc"):
         st = rng.choice(BUILTIN)
         dz = gen_dz(rng) if rng.random() < 0.6 else [0.1] * 12
@@ -310,7 +312,7 @@ def gen_init_spec(rng, kind):
         crop, zov, zmax = pick_crop(rng, eff_dz, want_ok=False)
     else:
         crop, zov, zmax = pick_crop(rng, eff_dz, want_ok=True)
-    zs = max(capacity(eff_dz) if predict_hang(eff_dz, zmax) else max(sum(eff_dz), zmax + 0.1), 0.3)
+    zs = max(sum(eff_dz), zmax + 0.1, 0.3)
     iwc = gen_iwc(rng, max(1, min(nl, 3)), zs, malformed=(kind == "badiwc"))
     return {"type": st, "dz": dz, "layers": layers, "crop": crop, "zmax": zov, "iwc": iwc, "kind": kind,
             "hang": predict_hang(eff_dz, zmax)}
@@ -402,21 +404,20 @@ def gen(rng, n):
     kinds = []
     for i in range(n_init):
         k = rng.random()
-        kinds.append("valid" if k < 0.90 else ("hang" if k < 0.93 else ("badlayer" if k < 0.95 else
+        kinds.append("valid" if k < 0.86 else ("hang" if k < 0.93 else ("badlayer" if k < 0.95 else
                      ("badiwc" if k < 0.98 else "badtex"))))
     specs = [gen_init_spec(rng, k) for k in kinds]
-    fast = [s for s in specs if not s["hang"]]
-    slow = [s for s in specs if s["hang"]]
     res = dict()
-    for group, tmo in ((fast, 120), (slow, 2)):
-        for s, r in zip(group, sim.pmap(run_init, group, timeout=tmo)):
-            res[id(s)] = r
+    for s, r in zip(specs, sim.pmap(run_init, specs, timeout=120)):
+        res[id(s)] = r
     for s in specs:
         r = res[id(s)]
         if "line" not in r:
             raise RuntimeError("harness error in run_init: %r" % (r,))
-        kind = "valid" if s["kind"] == "valid" else "malformed"
-        COV["init " + s["kind"]] += 1
+        kind = "valid" if s["kind"] in ("valid", "hang") else "malformed"
+        COV["init " + ("bottom-grow (ex-hang)" if s["kind"] == "hang" else s["kind"])] += 1
+        if s["hang"]:
+            COV["init else-branch of the deepening loop taken"] += 1
         COV["init %s/%s" % (s["iwc"]["wc_type"], s["iwc"]["method"])] += 1
         COV["init soil " + ("builtin" if s["type"] != "custom" else "custom")] += 1
         if any(L[0] == "X" for L in s["layers"]):
